@@ -12,7 +12,11 @@ use crate::sym;
 pub const EVAL_BOUND: i32 = 20000;
 
 // ---- models (arbitrary permutation; arbitrary non-negative history scores; no-op age/record)
+/// when set, the ordering model is the identity (used by the relational determinism harnesses, where
+/// an arbitrary permutation would make the two runs differ by construction)
+pub static mut ORDER_IDENTITY: bool = false;
 pub fn permute(moves: &mut [Move]) {
+    if unsafe { ORDER_IDENTITY } { return; }
     let n = moves.len();
     if n >= 2 && sym::bool() { moves.swap(0, 1); }
     if n >= 3 { if sym::bool() { moves.swap(1, 2); } if sym::bool() { moves.swap(0, 1); } }
@@ -26,6 +30,15 @@ pub fn stub_to_algebraic(m: Move) -> String {
     unsafe { crate::out::LAST_RENDERED = Some(m); }
     String::from(match m.to { 0 => "m0", 1 => "m1", _ => "m2" })
 }
+
+/// Model of std's Duration::from_millis for the time-allocation harnesses: the millisecond count is
+/// carried verbatim in the seconds field (no /1000, %1000, u128 arithmetic for the solver to undo);
+/// `dur_ms` reads it back.  Natively the real std functions are used.
+pub fn stub_from_millis(ms: u64) -> core::time::Duration { core::time::Duration::new(ms, 0) }
+#[cfg(kani)]
+pub fn dur_ms(d: core::time::Duration) -> u64 { d.as_secs() }
+#[cfg(not(kani))]
+pub fn dur_ms(d: core::time::Duration) -> u64 { d.as_millis() as u64 }
 
 // ---- symbolic game
 macro_rules! for_nodes { ($f:ident) => {
@@ -54,7 +67,7 @@ pub fn setup_game(b: usize, l: usize) {
     set_shape(b, l);
     gm().white_root = sym::bool();
     for_nodes!(setup_node);
-    unsafe { STOP_AT = u32::MAX; USE_HASH2 = false; FIRST_GEN_KIND = 0; }
+    unsafe { STOP_AT = u32::MAX; USE_HASH2 = false; FIRST_GEN_KIND = 0; ORDER_IDENTITY = false; }
     crate::out::reset();
     #[cfg(not(kani))]
     describe();
